@@ -2,10 +2,15 @@
    Proved over the reals for the recurrence specifications of TR, ATR, HLA, OBV, VWAP, EMA
    and RSI: no step can raise (every divisor is non-zero: periods are positive, VWAP and
    RSI test their divisor first).  Finiteness is immediate in R; overflow of binary64 is
-   outside the theorem.  All other indicators: bit-exact correspondence + falsifier on
-   degenerate streams. *)
+   outside the theorem.  At the level of whole series (Proofs/TotalReal.v): on every stream the
+   specifications of TR, ATR, HLA, OBV, VWAP and - given the input on every candle - SMA, EMA,
+   RMA, WMA, RSI return a series as long as the stream, made of None and numbers only, with no
+   gap once a number has appeared; ROC does so when no input is zero, and that premise cannot
+   be dropped (a zero base raises: known finding K1).  All other indicators: bit-exact
+   correspondence + falsifier on degenerate streams. *)
 From Coq Require Import ZArith List String Bool Reals.
-From Hexital Require Import Base.Prelude Base.Num Model.Candle Inst.RealInst Spec.Steppers Proofs.SpecReal.
+From Hexital Require Import Base.Prelude Base.Num Model.Candle Inst.RealInst Spec.Steppers Proofs.SpecReal Proofs.TotalReal.
+Import ListNotations.
 Local Open Scope R_scope.
 
 Theorem C09_steps_never_raise :
@@ -25,3 +30,32 @@ Theorem C09_rsi_total :
   exists r, rsi_value ROps nd g l = Ok r /\ 0 <= r <= 100.
 Proof. exact rsi_value_range. Qed.
 Print Assumptions C09_rsi_total.
+
+(* whole series: never raises, None/number only, no gaps after warm-up *)
+Theorem C09_ohlcv_series_total_without_gaps :
+  forall (k : kind_s ROps) (nd : Z) (cs : list (inp ROps)),
+  (k = S_TR \/ (exists p, (0 < p)%Z /\ k = S_ATR p) \/ k = S_HLA \/ k = S_OBV \/ k = S_VWAP) ->
+  exists vs, series ROps k nd cs = Ok vs /\ List.length vs = List.length cs /\ no_gaps vs.
+Proof. exact ohlcv_series_total. Qed.
+Print Assumptions C09_ohlcv_series_total_without_gaps.
+
+Theorem C09_input_series_total_without_gaps :
+  forall (k : kind_s ROps) (nd : Z) (cs : list (inp ROps)),
+  (0 <= nd)%Z ->
+  (exists p, (0 < p)%Z /\ (k = S_SMA p \/ (exists sm, k = S_EMA p sm) \/ k = S_RMA p \/ k = S_WMA p \/ k = S_RSI p)) ->
+  Forall has_input cs ->
+  exists vs, series ROps k nd cs = Ok vs /\ List.length vs = List.length cs /\ no_gaps vs.
+Proof. exact input_series_total. Qed.
+Print Assumptions C09_input_series_total_without_gaps.
+
+Theorem C09_roc_series_total_on_nonzero_inputs :
+  forall (p nd : Z) (cs : list (inp ROps)), (0 < p)%Z -> Forall nonzero_input cs ->
+  exists vs, series ROps (S_ROC p) nd cs = Ok vs /\ List.length vs = List.length cs /\ no_gaps vs.
+Proof. exact roc_series_total. Qed.
+Print Assumptions C09_roc_series_total_on_nonzero_inputs.
+
+(* the full statement is false of ROC on a zero base: the witness of known finding K1 *)
+Theorem C09_roc_zero_base_refuted :
+  series ROps (S_ROC 1) 4 [Build_inp ROps 0 0 0 0 0 (Some 0%R); Build_inp ROps 1 1 1 1 0 (Some 1%R)] = Err ZeroDivisionError.
+Proof. exact roc_zero_base_refuted. Qed.
+Print Assumptions C09_roc_zero_base_refuted.
